@@ -1538,3 +1538,176 @@ V('reord-module-reorder-save-restore-finally', 'C17', 'benign',
     finally:
         bdd._last_len = old""")],
   None, 'the same with a finally: nothing to report')
+
+
+# ------------------------------------------ variants for the later rules
+M = 'dd/mdd.py'
+C = 'dd/_copy.py'
+D = 'dd/dddmp.py'
+V('memo-mdd-symmetric-entry-right', 'C15', 'benign',
+  [(M, """        self._ite_table[t] = w
+        return w""", """        self._ite_table[t] = w
+        self._ite_table[(-g, v, u)] = w
+        return w""")],
+  None, 'ite(-g, v, u) is ite(g, u, v): a correct second entry')
+V('memo-mdd-symmetric-entry-wrong', 'C15', 'breaking',
+  [(M, """        self._ite_table[t] = w
+        return w""", """        self._ite_table[t] = w
+        self._ite_table[(-g, u, v)] = -w
+        return w""")],
+  'R-MEMO/foreign-key-store/dd.mdd.MDD.ite',
+  'ite(-g, u, v) is not the negation of ite(g, u, v)')
+V('sort-early-exit-right', ['C07'], 'benign',
+  [(B, """    for k in range(n):
+        for i in range(n - 1):
+            for root in bdd.roots:""", """    for k in range(n):
+        swapped = False
+        for i in range(n - 1):
+            for root in bdd.roots:"""),
+   (B, """                bdd.swap(i, i + 1, levels)
+                m += 1
+                logger.debug(
+                    f'swap: {p} with {q}, {i}')
+            if logger.getEffectiveLevel() < logging.DEBUG:
+                bdd.assert_consistent()
+    logger.info(f'total swaps: {m}')""", """                bdd.swap(i, i + 1, levels)
+                m += 1
+                swapped = True
+                logger.debug(
+                    f'swap: {p} with {q}, {i}')
+            if logger.getEffectiveLevel() < logging.DEBUG:
+                bdd.assert_consistent()
+        if not swapped:
+            break
+    logger.info(f'total swaps: {m}')""")],
+  None, 'bubble sort with a correct early exit (flag accumulates)')
+V('accept-merged-level-guards', ['C17', 'C02'], 'benign',
+  [(B, """        if i < 0:
+            raise ValueError(
+                f'The given level: {i = } < 0')
+        if i >= len(self.vars):""", """        if not (0 <= i):
+            raise ValueError(
+                f'The given level: {i = } < 0')
+        if not (i < len(self.vars)):""")],
+  None, 'the same two guards written the other way round')
+V('accept-level-off-by-one', ['C17', 'C02', 'C06'], 'breaking',
+  [(B, """        if i >= len(self.vars):
+            raise ValueError(
+                f'The given level: {i = } is not < of '""",
+       """        if i > len(self.vars):
+            raise ValueError(
+                f'The given level: {i = } is not < of '""")],
+  'R-ACCEPT/accepts-invalid/dd.bdd.BDD.find_or_add',
+  'a node may be made at the level of the terminal')
+V('accept-swap-rejects-top', ['C17'], 'breaking',
+  [(B, """        if not (0 <= x < len(self.vars)):
+            raise ValueError(x)""", """        if not (0 < x < len(self.vars)):
+            raise ValueError(x)""")],
+  'R-ACCEPT/rejects-valid/dd.bdd.BDD.swap',
+  'the top pair of levels can no longer be swapped')
+V('keys-old2new-via-items', 'C16', 'benign',
+  [(D, "    old2new = {levels[var]: new_levels[var] for var in levels}",
+       "    old2new = {k: new_levels[var] for var, k in levels.items()}")],
+  None, 'the same map built from items()')
+V('keys-old2new-from-new', 'C16', 'breaking',
+  [(D, "    old2new = {levels[var]: new_levels[var] for var in levels}",
+       "    old2new = {new_levels[var]: levels[var] for var in levels}")],
+  'R-KEYS/', 'the map inverted: new -> old')
+V('oneshot-todot-tuple', 'C18', 'benign',
+  [(B, """        roots = list(roots)
+        nodes = bdd.descendants(roots)""", """        roots = tuple(roots)
+        nodes = bdd.descendants(roots)""")],
+  None, 'materialised as a tuple instead of a list')
+V('oneshot-todot-again', 'C18', 'breaking',
+  [(B, """        roots = list(roots)
+        nodes = bdd.descendants(roots)""",
+       """        nodes = bdd.descendants(roots)""")],
+  'R-ONESHOT/traversed-twice/dd.bdd._to_dot', 'F13 re-introduced')
+V('argmut-autoref-let-copy', ['C04', 'C08'], 'benign',
+  [(A, """            case str() | bool():
+                d = definitions""", """            case str() | bool():
+                d = dict(definitions)""")],
+  None, 'a copy of the caller\'s dictionary')
+V('argmut-compose-pop', ['C04', 'C09'], 'breaking',
+  [(B, "            (var, g), = var_sub.items()",
+       "            var, g = var_sub.popitem()")],
+  'R-ARGMUT/argument-edited/dd.bdd.BDD.compose',
+  'the retried call sees an emptied dictionary')
+V('identity-function-eq', 'C01', 'breaking',
+  [(A, "        return self.node == other.node",
+       "        return self.node is other.node")],
+  'R-LOSSY/identity-on-values/dd.autoref.Function.__eq__',
+  'equal node numbers above 256 are different objects')
+V('classstate-mdd-table', 'C15', 'breaking',
+  [(M, "        self._ite_table: dict = dict()\n        if dvars is None:",
+       "        if dvars is None:"),
+   (M, '    Represents a Boolean function of integer variables.',
+       '    Represents a Boolean function of integer variables.\n    """\n\n    _ite_table: dict = dict()\n\n    """')],
+  'R-ALIAS/class-level-state', 'one computed table for all MDD managers')
+V('unused-autoref-load-levels', 'C12', 'breaking',
+  [(A, "            return self._load_pickle(\n                filename, levels=levels)",
+       "            return self._load_pickle(\n                filename)")],
+  'R-UNUSED/argument-dropped/dd.autoref.BDD.load',
+  'levels=False silently becomes levels=True')
+V('falsy-count-nvars', 'C10', 'breaking',
+  [(B, "        if n is None:\n            n = k",
+       "        if not n:\n            n = k")],
+  'R-FALSY/', 'count(u, 0) must be refused for a non-constant u')
+V('falsy-pick-iter-care-default', 'C10', 'benign',
+  [(B, "        if care_vars is None:\n            care_vars = support",
+       "        if care_vars is None or care_vars is ...:\n            care_vars = support")],
+  None, 'an extra sentinel for the default')
+V('enum-vars-as-levels', 'C18', 'breaking',
+  [(B, "    levels = {\n        bdd._succ[abs(u)][0]\n        for u in nodes}",
+       "    levels = {\n        k for k, _ in enumerate(bdd.vars)}")],
+  'R-ENUM/dict-order-as-level', 'position in `vars` used as level')
+V('cache-view-lru', 'C18', 'breaking',
+  [(A, "import logging\n", "import functools\nimport logging\n"),
+   (A, "    @property\n    def level(", "    @functools.cached_property\n    def level(")],
+  'R-CACHE/memoised-view', 'the level of a handle cached across reorderings')
+V('alias-var-levels-live', ['C14', 'C07'], 'breaking',
+  [(B, "        return dict(self.vars)", "        return self.vars")],
+  'R-ALIAS/table-escapes', 'var_levels hands out the live table')
+V('term-sign-blind-copy', 'C11', 'breaking',
+  [(B, """    # terminal ?
+    if abs(u) == 1:
+        return u
+    # non-terminal
+    # memoized ?
+    r = cache.get(abs(u))""", """    # terminal ?
+    if abs(u) == 1:
+        return 1
+    # non-terminal
+    # memoized ?
+    r = cache.get(abs(u))""")],
+  'R-TERM/sign-blind-terminal', 'FALSE copied as TRUE')
+V('restore-loadjson-no-finally', ['C17', 'C09'], 'breaking',
+  [(C, """    finally:
+        if load_order:
+            bdd.configure(
+                reordering=old_reordering['reordering'])
+    return roots""", """    finally:
+        pass
+    if load_order:
+        bdd.configure(
+            reordering=old_reordering['reordering'])
+    return roots""")],
+  'R-REORD/restore-on-error/dd._copy._load_json', 'F15 re-introduced')
+V('make-node-check-after-incref', ['C17', 'C12'], 'breaking',
+  [(C, """    if u.negated:
+        raise AssertionError(u)
+    # memoize
+    cache[str(k)] = int(u)
+    bdd.incref(u)""", """    # memoize
+    cache[str(k)] = int(u)
+    bdd.incref(u)
+    if u.negated:
+        raise AssertionError(u)""")],
+  'R-PAIR/temporaries-raise-after-incref', 'refused record keeps its count')
+V('loader-release-recursive', 'C19', 'breaking',
+  [(C, "            bdd.decref(u, _direct=True)",
+       "            bdd.decref(u, recursive=True)")],
+  'R-CYTS/loader-release-not-direct', 'the temporary is never returned in the C back ends')
+V('dddmp-auxids-overwrite', 'C16', 'breaking',
+  [(D, "        self.aux_var_ids = p[2]", "        self.permuted_var_ids = p[2]")],
+  'R-FORMAT/header-field-two-writers', 'copy-paste in a grammar action')
